@@ -10,5 +10,7 @@ CONSTANTS
   MultiEvery = 1
   MultiPlans = 2
   OptEvery = 1
+  ConcEvery = 4
+  Conc = 8
 INVARIANT Emit
 CHECK_DEADLOCK FALSE
